@@ -32,7 +32,9 @@ MANIFEST = {
             'must follow the rewrite table. Chains are enumerated, register '
             'grids sampled.'
             ' In a quarter of the cases the registers are filled by expre'
-            'ssions instead of constants.',
+            'ssions instead of constants.'
+            ' In 6 % of the cases a get that the light does not answer st'
+            'ands before the final set.',
     'note': 'Trusted: rational conversion oracle (bvf/oracle.py). Colours are '
             'compared componentwise (hue on the circle, ignored when '
             'saturation or brightness is 0) or, when rgb is involved, by RGB '
@@ -240,6 +242,12 @@ def one_case(ctx, i, rng):
         # logical units are what a script starts in: no need to say so
         setup = setup[len('units logical '):]
     tail = ' set "A" on "A" wait'
+    silent_get = rng.random() < 0.06
+    if silent_get:
+        # a `get` from a light that does not answer, after the switches: what
+        # it leaves in the registers does not depend on the units in force
+        tail = ' get "A"' + tail
+        ctx.count('cases_with_an_unanswered_get')
     script_a = setup + tail
     # a switch may be reached through a routine, a branch or a loop body, so
     # that the `units` command executed last is not the one written last
@@ -269,8 +277,15 @@ def one_case(ctx, i, rng):
     real = any(x != y for x, y in zip(modes, modes[1:]))
     ctx.case('C:{}:{}:{}'.format(m0, sorted(regs.items()), chain),
              nontrivial=real)
-    ra = run_script(script_a)
-    rb = run_script(script_b, keep_job=True)
+    if silent_get:
+        simnet.set_plan(simnet.FaultPlan(silent={('A', 'get_color')}))
+    try:
+        ra = run_script(script_a)
+        if silent_get:
+            simnet.set_plan(simnet.FaultPlan(silent={('A', 'get_color')}))
+        rb = run_script(script_b, keep_job=True)
+    finally:
+        simnet.set_plan(None)
     for r, s in ((ra, script_a), (rb, script_b)):
         if not r.accepted:
             ctx.violation('rejected', r.errors.strip() + ' | ' + s, replay)
@@ -303,7 +318,7 @@ def one_case(ctx, i, rng):
                           wa, wb, script_b), replay)
         return
     ctx.count('pairs_agree')
-    if i % 5 == 2:
+    if i % 5 == 2 and not silent_get:
         # the same job once more: it starts from the same settings as the
         # first time, whatever units the first run ended in
         rc = run_script(script_b, job=rb.job)
